@@ -49,10 +49,10 @@ type cnDriver struct {
 	rejects    int
 	paths      map[string]int
 	txKinds    map[string]int
-	sched      [][]string           // optional per-height path assignment (from TLC)
-	nodeRts    map[string]string    // runtimes each node is currently registered for
-	pendRts    map[*cnTxSpec]string // proposed runtime lists of not yet executed registrations
-	rtOwner    map[string]string    // registered runtimes -> owning entity
+	sched      [][]string            // optional per-height path assignment (from TLC)
+	nodeRts    map[string]string     // runtimes each node is currently registered for
+	pendRts    map[*cnTxSpec]string  // proposed runtime lists of not yet executed registrations
+	rtOwner    map[string]string     // registered runtimes -> owning entity
 	rtDeps     map[string][][2]int64 // registered runtimes -> deployments (version, valid from) as last accepted
 	nodeVer    map[string]int64      // "node/runtime" -> runtime version the node last registered successfully
 	epoch      int64
